@@ -14,13 +14,13 @@ import (
 	"github.com/zclconf/go-cty/cty/function/stdlib"
 )
 
-var c14RefNames = map[string]bool{"timeadd": true, "split": true, "trimprefix": true, "trimsuffix": true, "trimspace": true, "trim": true}
+var c14RefNames = map[string]bool{"formatdate": true, "timeadd": true, "split": true, "trimprefix": true, "trimsuffix": true, "trimspace": true, "trim": true}
 
 // nfcOnly keeps the recorded NFC facts and drops every other library column.
 func (o *oracle) nfcOnly() string {
 	var es []string
 	for _, e := range o.entries {
-		if strings.HasPrefix(e, "(nfc ") || strings.HasPrefix(e, "(parseTimestamp ") || strings.HasPrefix(e, "(timeAdd ") {
+		if strings.HasPrefix(e, "(nfc ") || strings.HasPrefix(e, "(timeAdd ") {
 			es = append(es, e)
 		}
 	}
